@@ -165,7 +165,7 @@ void FnEmitter::emitCall(const CallBase& CB) {
     std::string a = IA->getAsmString();
     if (a == "pause" || a == "pause;" || a == "rep; nop" || a == "rep; nop;") {
       body << "  VF_PAUSE();\n";
-      if (step) body << "  if (vf_probe_mode) return;\n";
+      if (step) body << "  if (vf_probe_mode && vf_blocked[" << tid << "]) return;\n";
       return;
     }
     if (a.empty()) return; // compiler barrier
@@ -195,7 +195,9 @@ void FnEmitter::emitCall(const CallBase& CB) {
       else body << "  { " << ty(F.getReturnType()) << " vf_z; memset(&vf_z, 0, sizeof vf_z); return vf_z; }\n";
       return;
     }
-    if ((n == "malloc" || n == "_Znwm" || n == "_Znam") && !isa<ConstantInt>(CB.getArgOperand(0))) {
+    bool isAlloc = n == "malloc" || n == "_Znwm" || n == "_Znam" || n == "_ZnwmSt11align_val_t" || n == "_ZnamSt11align_val_t" ||
+                   n == "_ZnwmRKSt9nothrow_t";
+    if (isAlloc && !isa<ConstantInt>(CB.getArgOperand(0))) {
       // symbolic-size allocation used as T[]: malloc(sizeof(T) * (n / sizeof(T))) gives CBMC a typed array object
       Type* found = nullptr;
       for (const User* U : CB.users())
@@ -214,7 +216,7 @@ void FnEmitter::emitCall(const CallBase& CB) {
         return;
       }
     }
-    if ((n == "malloc" || n == "_Znwm" || n == "_Znam") && isa<ConstantInt>(CB.getArgOperand(0))) {
+    if (isAlloc && isa<ConstantInt>(CB.getArgOperand(0))) {
       // typed allocation: malloc(C) whose result is bitcast to S* with sizeof(S) dividing C becomes
       // malloc(k * sizeof(struct S)), so that CBMC creates a typed (field-sensitive) dynamic object
       uint64_t C = cast<ConstantInt>(CB.getArgOperand(0))->getZExtValue();
